@@ -424,11 +424,24 @@ Definition overlap (fx : bool) (h : hd) (t : tok) : bool :=
   | _ => true
   end.
 
+(** the loops of compileClosure over [comp] = compile of the closure's child:
+    [copies_f]: [for (i < n) ret = compile(childTok, ret)];
+    [quest_f]:  [for (i < max) { q = createQuestionOp; q->setChild(compile(childTok, ret)); ret = q; }] *)
+Fixpoint copies_f (comp : hd -> nat -> op * nat) (nh : hd) (n : nat) (ret : op) (id : nat) : op * nat :=
+  match n with
+  | O => (ret, id)
+  | S n' => let (o1, id1) := comp (head_of ret nh) id in copies_f comp nh n' (OCat o1 ret) id1
+  end.
+Fixpoint quest_f (comp : hd -> nat -> op * nat) (nh : hd) (k : nat) (ret : op) (id : nat) : op * nat :=
+  match k with
+  | O => (ret, id)
+  | S k' => let (o1, id1) := comp (head_of ret nh) id in quest_f comp nh k' (OQuestion (OCat o1 ret)) id1
+  end.
+
 Section Compile.
 Variable w : sw.
 Variable cap : bool.     (* groups capture (RegxParser numbers them; ParserForXMLSchema uses group number 0 = transparent) *)
 
-(** [rep_front n c rest nh]: n copies of the child compiled in front of [rest] (the loops [ret = compile(childTok, ret)]) *)
 Fixpoint compile (t : tok) (nh : hd) (id : nat) {struct t} : op * nat :=
   match t with
   | TEmpty => (OEmpty, id)
@@ -457,33 +470,22 @@ Fixpoint compile (t : tok) (nh : hd) (id : nat) {struct t} : op * nat :=
            end) l id in
       (OUnion ol, id')
   | TClosure mn mx c =>
-      let copies := fix copies (n : nat) (ret : op) (id : nat) : op * nat :=
-        match n with
-        | O => (ret, id)
-        | S n' => let (o1, id1) := compile c (head_of ret nh) id in copies n' (OCat o1 ret) id1
-        end in
       let exact := match mx with Some m => Nat.eqb m mn | None => false end in
-      if exact then copies mn OEmpty id
+      if exact then copies_f (compile c) nh mn OEmpty id
       else
         let mx' := match mx with
                    | Some m => if (Nat.ltb 0 mn && Nat.ltb 0 m)%bool then Some (m - mn)%nat else Some m
                    | None => None end in
         let bounded := match mx' with Some k => Nat.ltb 0 k | None => false end in
         let (body, id1) :=
-          if bounded then
-            (fix quest (k : nat) (ret : op) (id : nat) : op * nat :=
-               match k with
-               | O => (ret, id)
-               | S k' => let (o1, id1) := compile c (head_of ret nh) id in
-                         quest k' (OQuestion (OCat o1 ret)) id1
-               end) (match mx' with Some k => k | None => O end) OEmpty id
+          if bounded then quest_f (compile c) nh (match mx' with Some k => k | None => O end) OEmpty id
           else
             let cid := if Nat.eqb (minlen c) 0 then Some id else None in
             let id0 := if Nat.eqb (minlen c) 0 then S id else id in
             let finite := match nh with HNull => true | _ => negb (overlap (fx_ovl w) nh c) end in
             if finite then let (oc, id1) := compile c HNull id0 in (OFinClosure cid oc, id1)
             else let (oc, id1) := compile c HOther id0 in (OClosure cid oc, id1) in
-        copies mn body id1
+        copies_f (compile c) nh mn body id1
   end.
 
 End Compile.
@@ -523,6 +525,36 @@ Definition xp_dot (fx sl : bool) (c : N) : bool :=
   if sl then true
   else if fx then negb ((c =? 10) || (c =? 13) || (c =? 0x2028) || (c =? 0x2029)) else negb (eol16 c).
 
+(** matchUnion: every branch runs on a copy of the context ([run b] = match of branch b with the continuation);
+    the best (largest) end wins, the first wins ties, a branch reaching the limit ends the search *)
+Fixpoint union_go (limit : nat) (st : offs) (run : op -> mres) (l : list op) (best : option nat) (bst : offs) : mres :=
+  match l with
+  | [] => match best with Some b => MR (Some b) bst | None => MR None st end
+  | b1 :: r =>
+      match run b1 with
+      | MFuel => MFuel
+      | MR (Some e) st1 =>
+          let better := match best with Some b => Nat.ltb b e | None => true end in
+          if (Nat.leb e limit && better)%bool then
+            if Nat.eqb e limit then MR (Some e) st1 else union_go limit st run r (Some e) st1
+          else union_go limit st run r best bst
+      | MR None _ => union_go limit st run r best bst
+      end
+  end.
+
+(** the loop of O_FINITE_CLOSURE: [while ((ret = match(child, offset)) != -1) { if (offset == ret) break; offset = ret; }];
+    [run] = match of the child chain (which ends at NULL), [fin] = what follows the loop *)
+Fixpoint fin_loop (run : nat -> offs -> mres) (fin : nat -> offs -> mres) (n : nat) (off : nat) (st : offs) : mres :=
+  match n with
+  | O => MFuel
+  | S n' =>
+      match run off st with
+      | MFuel => MFuel
+      | MR (Some e) st1 => if Nat.eqb e off then fin off st1 else fin_loop run fin n' e st1
+      | MR None st1 => fin off st1
+      end
+  end.
+
 Section Match.
 Variable w : sw.
 Variable xp : bool.      (* the XPath-flavoured dialect (no XMLSCHEMA_MODE) *)
@@ -550,23 +582,7 @@ Fixpoint omatch (fuel : nat) (o : op) (k : kont) (off : nat) (st : offs) {struct
     | ORange neg r => one_char (rt_match neg r) k off st
     | OString lit => if prefix_at s off lit then k (off + length lit)%nat st else MR None st
     | OCat a b => omatch f a (fun o' st' => omatch f b k o' st') off st
-    | OUnion l =>
-        (* matchUnion: every branch runs on a copy of the context; the best (largest) end wins, first wins ties,
-           a branch reaching the limit ends the search *)
-        (fix go (l : list op) (best : option nat) (bst : offs) : mres :=
-           match l with
-           | [] => match best with Some b => MR (Some b) bst | None => MR None st end
-           | b1 :: r =>
-               match omatch f b1 k off st with
-               | MFuel => MFuel
-               | MR (Some e) st1 =>
-                   let better := match best with Some b => Nat.ltb b e | None => true end in
-                   if (Nat.leb e limit && better)%bool then
-                     if Nat.eqb e limit then MR (Some e) st1 else go r (Some e) st1
-                   else go r best bst
-               | MR None _ => go r best bst
-               end
-           end) l None st
+    | OUnion l => union_go limit st (fun b1 => omatch f b1 k off st) l None st
     | OQuestion c =>
         match omatch f c k off st with
         | MFuel => MFuel
@@ -588,18 +604,7 @@ Fixpoint omatch (fuel : nat) (o : op) (k : kont) (off : nat) (st : offs) {struct
     | OFinClosure id c =>
         let fin (off : nat) (st : offs) : mres :=
           k off (match id with Some i => set_nth st i None | None => st end) in
-        let run (st0 : offs) :=
-          (* while ((ret = match(child, offset)) != -1) { if (offset == ret) break; offset = ret; } *)
-          (fix loop (n : nat) (off : nat) (st : offs) : mres :=
-             match n with
-             | O => MFuel
-             | S n' =>
-                 match omatch f c (fun o' st' => MR (Some o') st') off st with
-                 | MFuel => MFuel
-                 | MR (Some e) st1 => if Nat.eqb e off then fin off st1 else loop n' e st1
-                 | MR None st1 => fin off st1
-                 end
-             end) f off st0 in
+        let run (st0 : offs) := fin_loop (omatch f c (fun o' st' => MR (Some o') st')) fin f off st0 in
         match id with
         | Some i => if slot_is st i off then k off (set_nth st i None) else run (set_nth st i (Some off))
         | None => run st
